@@ -544,7 +544,7 @@ def main(argv):
         unexplained.append(i)
     # a changed translation (the source of a translated function changed) does not by itself say the property fails: the
     # correspondence above still ties the model to the code; it triggers the search for a failing input
-    need_search = bool(unexplained) or not proof["ok"] or tie_broken
+    need_search = bool(unexplained) or not proof["ok"] or tie_broken or bool(os.environ.get("VERIF_FORCE_SEARCH"))   # (soak runs)
     searched = 0
     if need_search and not any(v[1] for v in violations):
         # look for a concrete failing input of the property itself with the exact oracles
